@@ -58,6 +58,7 @@ StringResult(page, p) == CASE page = "ok" -> [ok |-> TRUE, out |-> "page:ok"]
                            [] page = "okbad" -> [ok |-> FALSE, err |-> "unsupported value in the data", at |-> p]   \* page ok with data that cannot be converted
                            [] page = "argOk" -> [ok |-> TRUE, out |-> "page:argdep"]           \* one page, a component argument that this data map satisfies ...
                            [] page = "argBad" -> [ok |-> FALSE, err |-> "runtime error", at |-> p]    \* ... and one it does not
+                           [] page = "shared" -> [ok |-> TRUE, out |-> "page:shared"]           \* data behind a pointer the caller changes between calls
                            [] page = "usesfn" -> [ok |-> TRUE, out |-> "page:usesfn"]           \* a page that calls custom functions
                            [] page = "floatdec" -> [ok |-> TRUE, out |-> "page:floatdec"]       \* number literals under ++ / --
                            [] page \in {"lastA", "lastB", "lastC"} -> [ok |-> TRUE, out |-> "page:lastof"]        \* one template, arrays of three lengths
